@@ -43,6 +43,19 @@ Theorem C07_edge_determined_by_preedge_state s t e1 e2 : NoDup s -> Permutation 
 Proof. exact (ff_edge_determined B ffs Hframe Hdep Hsw Hff s t e1 e2). Qed.
 End C07.
 
+(* the section hypotheses are satisfiable and the theorems say something: the register swap  a <<= b ; b <<= a
+   (FFEdge.swapB: 0 = a, 1 = b, 2 = next(a), 3 = next(b), 4 = another register) swaps in both block orders *)
+Open Scope nat_scope.
+Example C07_swap_nonvacuous :
+  (forall i, In i [0; 1] -> frame (swapB i)) /\
+  (forall i, In i [0; 1] -> dep (swapB i)) /\
+  single_writer swapB [0; 1] /\
+  (forall i j v, In i [0; 1] -> In j [0; 1] -> i <> j -> wr (swapB i) v = true -> rd (swapB j) v = false) /\
+  forall e, run_list swapB [0; 1] e 2 = e 1 /\ run_list swapB [0; 1] e 3 = e 0 /\
+            run_list swapB [1; 0] e 2 = e 1 /\ run_list swapB [1; 0] e 3 = e 0 /\
+            run_list swapB [1; 0] e 4 = e 4.
+Proof. exact swap_nonvacuous. Qed.
+
 Open Scope Z_scope.
 (* on the model generated from PythonBits.py *)
 Theorem C07_ilshift_invisible n u nx v r : wfn n -> owf v -> bits_ilshift n u nx v = Ok r ->
@@ -64,4 +77,4 @@ Proof. vm_compute. split; reflexivity. Qed.
 Print Assumptions C07_any_ff_order. Print Assumptions C07_every_block_sees_preedge_state.
 Print Assumptions C07_ilshift_invisible. Print Assumptions C07_last_wins. Print Assumptions C07_flip. Print Assumptions C07_hold.
 Print Assumptions C07_unassigned_holds. Print Assumptions C07_edge_is_function_of_preedge_state.
-Print Assumptions C07_edge_determined_by_preedge_state.
+Print Assumptions C07_edge_determined_by_preedge_state. Print Assumptions C07_swap_nonvacuous.
